@@ -220,6 +220,16 @@ func checkC17(w *World, r *Report) {
 				continue
 			}
 			// statements `x.Path = pathutil.Pathstr(path)` at top level or inside an if
+			// named intermediates of the constructor (`last := len(path) - 1`)
+			locals := map[types.Object]ast.Expr{}
+			for _, st := range fd.Body.List {
+				if as, ok := st.(*ast.AssignStmt); ok && as.Tok == token.DEFINE && len(as.Lhs) == 1 && len(as.Rhs) == 1 {
+					if id, ok := as.Lhs[0].(*ast.Ident); ok {
+						locals[sp.TypesInfo.Defs[id]] = as.Rhs[0]
+					}
+				}
+			}
+			var assigned ast.Expr // the right-hand side of the Path assignment looked at
 			check := func(cond ast.Expr, pos token.Pos) {
 				n++
 				name := funcDeclName(fd)
@@ -239,9 +249,23 @@ func checkC17(w *World, r *Report) {
 						}
 					}()
 					for _, k := range []int64{1, 2, 3, 9} {
-						env := &guardEnv{p: sp, opaque: map[string]constant.Value{"len(" + pathObj.Name() + ")": constant.MakeInt64(k)}}
+						env := &guardEnv{p: sp, locals: locals, opaque: map[string]constant.Value{"len(" + pathObj.Name() + ")": constant.MakeInt64(k)}}
 						if !env.cond(cond) {
-							ok, bad = false, fmt.Sprintf("a path of %d element(s) is not recorded", k)
+							// nothing is lost when what would have been recorded is the empty prefix path[:0]
+							empty := false
+							ast.Inspect(assigned, func(x ast.Node) bool {
+								if se, isS := x.(*ast.SliceExpr); isS && se.Low == nil && se.High != nil {
+									if id, isI := ast.Unparen(se.X).(*ast.Ident); isI && sp.TypesInfo.Uses[id] == pathObj {
+										if hv := env.val(se.High); hv.Kind() == constant.Int && constant.Sign(hv) == 0 {
+											empty = true
+										}
+									}
+								}
+								return true
+							})
+							if !empty {
+								ok, bad = false, fmt.Sprintf("a path of %d element(s) is not recorded", k)
+							}
 						}
 					}
 				}()
@@ -272,6 +296,7 @@ func checkC17(w *World, r *Report) {
 				if is, ok := st.(*ast.IfStmt); ok && is.Init == nil {
 					for _, s2 := range is.Body.List {
 						if isPathAssign(s2) {
+							assigned = s2.(*ast.AssignStmt).Rhs[0]
 							check(is.Cond, s2.Pos())
 						}
 					}
